@@ -361,3 +361,52 @@ func Verif_C12_TagsUTF8(w int) {
 	verifsym.Assert(len(vs) == 1 && vs[0] == "v"+r+" x", "non-ASCII key/value not preserved")
 	verifsym.Reach("end")
 }
+
+// Verif_C15_Chain: deep and wide references beyond the exhaustive shape bound:
+// a chain of `depth` nested single-argument references whose innermost argument
+// list has `width` arguments; every node has a symbolic 3-byte identifier and,
+// per pathMode, a symbolic 2-byte path. Same assertions as Structure.
+func Verif_C15_Chain(depth, width, pathMode int) {
+	mk := func() *vNode {
+		n := &vNode{ident: string([]byte{vIdentByte(), vIdentByte(), vIdentByte()})}
+		if pathMode == 1 {
+			n.path = string([]byte{vPathByte(), vPathByte()})
+		}
+		return n
+	}
+	root := mk()
+	cur := root
+	for d := 1; d < depth; d++ {
+		k := mk()
+		cur.kids = []*vNode{k}
+		cur = k
+	}
+	for i := 0; i < width; i++ {
+		cur.kids = append(cur.kids, mk())
+	}
+	vCheckRoundTrip(root)
+	verifsym.Reach("end")
+}
+
+// Verif_C12_TagsLong: line lists beyond the exhaustive bound, sparsely symbolic:
+// k lines of about 14 bytes ("+key<j>=val ue<i> x"); keys repeat (j = i mod 2),
+// so repeated keys collect three or more values in order; in ONE line (case
+// split) two bytes at case-split positions are arbitrary ASCII bytes.
+func Verif_C12_TagsLong(k int) {
+	lines := make([]string, k)
+	sym := verifsym.IntRange(0, k-1)
+	for i := range lines {
+		b := []byte("+key" + string([]byte{'0' + byte(i%2)}) + "=val ue" + string([]byte{'0' + byte(i)}) + " x")
+		if i == sym {
+			p := verifsym.IntRange(0, len(b)-2)
+			q := verifsym.IntRange(p+1, len(b)-1)
+			c1, c2 := verifsym.Byte(), verifsym.Byte()
+			verifsym.Assume(c1 < 0x80)
+			verifsym.Assume(c2 < 0x80)
+			b[p], b[q] = c1, c2
+		}
+		lines[i] = string(b)
+	}
+	vCheckTags(lines, []byte{'+', '@'}, false)
+	verifsym.Reach("end")
+}
